@@ -200,10 +200,24 @@ def step(sess, tr, act, hist, is_server):
         record("oracle", "C08", f"CLOSED session produced bytes in {name}", hist)
 
 
-def explore(make, actions, depth, is_server):
+def explore(make, actions, depth, is_server, first=None):
+    """Depth-first over all action sequences up to `depth`; with first=i only the sequences that start with actions[i] (one worker)."""
     n = 0
     stack = [(make(), Track(), [])]
     seen_states = set()
+    if first is not None:
+        sess, tr, hist = stack.pop()
+        act = actions[first]
+        h2 = [act]
+        nv = len(violations)
+        step(sess, tr, act, h2, is_server)
+        n += 1
+        if len(violations) > nv:
+            for v in violations[nv:]:
+                v["inputs"].setdefault("history", [repr(h) for h in h2])
+                v["inputs"]["role"] = "server" if is_server else "client"
+            return n
+        stack = [(sess, tr, h2)]
     while stack:
         sess, tr, hist = stack.pop()
         if len(hist) >= depth:
@@ -232,16 +246,37 @@ def explore(make, actions, depth, is_server):
     return n
 
 
+def _worker(arg):
+    (role, ids, depth, first), tier = arg
+    del violations[:]
+    counts.clear()
+    if role == "server":
+        n = explore(LDAPServer, server_actions(ids, tier), depth, True, first)
+    else:
+        n = explore(LDAPClient, client_actions(ids, tier), depth, False, first)
+    return n, list(violations)[:10], dict(counts)
+
+
 def main():
     tier = os.environ.get("VERIF_TIER", "quick")
-    depth = int(os.environ.get("SESSION_DEPTH", "4" if tier == "quick" else "5"))
+    depth = int(os.environ.get("SESSION_DEPTH", "4" if tier == "quick" else "6"))
     t0 = time.time()
     ids = [1, 2]
-    n1 = explore(LDAPServer, server_actions(ids, tier), depth, True)
-    n2 = explore(LDAPClient, client_actions(ids, tier), depth, False)
-    # the server answers ids chosen by the peer: the extreme legal MessageIDs (RFC 4511 maxInt = 2^31 - 1) as well, one level shallower
     big = [2147483647, 2147483646]
-    n1 += explore(LDAPServer, server_actions(big, tier), max(2, depth - 1), True)
+    # one worker per (role, first action); the server answers ids chosen by the peer: the extreme legal MessageIDs
+    # (RFC 4511 maxInt = 2^31 - 1) as well, one level shallower
+    jobs = [("server", ids, depth, i) for i in range(len(server_actions(ids, tier)))] + \
+           [("client", ids, depth, i) for i in range(len(client_actions(ids, tier)))] + \
+           [("server", big, max(2, depth - 1), i) for i in range(len(server_actions(big, tier)))]
+    import multiprocessing as mp
+    with mp.get_context("fork").Pool(min(16, os.cpu_count() or 4)) as pool:
+        res = pool.map(_worker, [(j, tier) for j in jobs], chunksize=1)
+    n1 = sum(r[0] for r, j in zip(res, jobs) if j[0] == "server")
+    n2 = sum(r[0] for r, j in zip(res, jobs) if j[0] == "client")
+    for r in res:
+        violations.extend(r[1])
+        for k, v in r[2].items():
+            counts[k] = counts.get(k, 0) + v
     out = {"evaluations": n1 + n2, "contract_evaluations": counts.get("evaluated", 0), "steps": counts.get("steps", 0),
            "depth": depth, "violations": violations[:40], "wall_s": round(time.time() - t0, 2),
            "bound": f"all API/delivery sequences of length <= {depth} over ids {ids} (and, for the server, of length <= {max(2, depth - 1)} over ids {big}) (server: {len(server_actions(ids, tier))} actions, client: {len(client_actions(ids, tier))} actions), equal abstract situations merged"}
